@@ -3,7 +3,7 @@
 # result with /root/.vp/BASELINE.json (all stable_pass tests must pass). Exit 0 iff they do.
 set -u
 ROOT="$(cd "$(dirname "$0")" && pwd)"
-cd /repo || exit 2
+cd "${VERIF_REPO:-/repo}" || exit 2
 unset RUSTFLAGS
 export CARGO_NET_OFFLINE=true
 cargo nextest run --workspace --no-fail-fast --tool-config-file "pb:$ROOT/nextest.toml" --profile pb --test-threads 8 --offline >/tmp/verif-baseline.log 2>&1
@@ -12,7 +12,8 @@ import json, sys, xml.etree.ElementTree as ET
 base = json.load(open('/root/.vp/BASELINE.json'))
 want = set(base['stable_pass'])
 try:
-    root = ET.parse('/repo/target/nextest/pb/junit.xml').getroot()
+    import os
+    root = ET.parse(os.environ.get('VERIF_REPO', '/repo') + '/target/nextest/pb/junit.xml').getroot()
 except Exception as e:
     print('baseline: cannot read junit.xml:', e); sys.exit(2)
 passed, failed = set(), set()
